@@ -170,26 +170,29 @@ Fixpoint pending_after (pending : option nat) (tr : list titem) : option nat :=
 Inductive ast :=
 | ARet
 | AYield (tag : nat) (blk : bool) (next : ast)
-| AIfOdd (a b : ast).      (* branch on the last blocking reply being odd *)
+| AIfOdd (a b : ast)       (* branch on the last blocking reply being odd *)
+| ASwitch (mode : nat) (next : ast).   (* self._handle_event = <another handler>, as real layers do to change state *)
 
-(* handler state: next command id *)
-Fixpoint interp (a : ast) (ctr : nat) (last : option nat) : prog nat :=
+(* handler state: (next command id, which handler is installed in self._handle_event) *)
+Fixpoint interp (a : ast) (st : nat * nat) (last : option nat) : prog (nat * nat) :=
   match a with
-  | ARet => Ret ctr
+  | ARet => Ret st
   | AYield tag blk next =>
-    Yield (mkCmd ctr tag (if blk then Blocking else NotBlocking))
-          (fun r => interp next (Datatypes.S ctr) (if blk then r else last))
+    Yield (mkCmd (fst st) tag (if blk then Blocking else NotBlocking))
+          (fun r => interp next (Datatypes.S (fst st), snd st) (if blk then r else last))
   | AIfOdd x y =>
     match last with
-    | Some r => if Nat.odd r then interp x ctr last else interp y ctr last
-    | None => interp y ctr last
+    | Some r => if Nat.odd r then interp x st last else interp y st last
+    | None => interp y st last
     end
+  | ASwitch mode next => interp next (fst st, mode) last
   end.
 
-(* table: handler per event kind (Ext kinds 0..; completions seen by the handler use the last entry) *)
-Definition table_handler (table : list ast) (ctr : nat) (ev : event) : prog nat :=
+(* table: handler per event kind (Ext kinds 0..; completions seen by the handler use the last entry); the installed
+   handler number rotates the table, so that handling an event with a stale handler is observable *)
+Definition table_handler (table : list ast) (st : nat * nat) (ev : event) : prog (nat * nat) :=
   let k := match ev with Ext kind _ => kind | Completed _ _ => length table - 1 end in
-  interp (nth k table ARet) ctr None.
+  interp (nth ((k + snd st) mod (length table)) table ARet) st None.
 
 (* ------------------------------------------------------------------ *)
 (* NextLayer                                                            *)
